@@ -108,7 +108,7 @@ def run(ctx):
                 S = [3, 4, 5, 6] if len(obs) % 2 else list(pr.w.words(name, 'start'))      # the other words: small / any in-domain
                 S[si] = w
                 # a third of the renderings come after other syscalls (umask, ...) of the same thread
-                prefix = pr.history(3) if len(obs) % 3 == 0 else ()
+                prefix = pr.history(3, same=name) if len(obs) % 3 == 0 else ()
                 o = {'id': '%s/%s/%x%s' % (fam, name, w, '/after-history' if prefix else ''), 'kind': 'flags', 'fam': fam,
                      'bits': bits, 'via': name + (' after %s' % [h[0] for h in prefix] if prefix else '')}
                 try:
